@@ -138,6 +138,9 @@ func (w *algWorld) Gen(seed uint64, tier string) *Plan {
 	if cfg.Dom > 32 {
 		cfg.Dom = []int{4, 8, 12, 16, 24, 32}[r.Intn(6)]
 	}
+	if cfg.Kind == "treeset" && r.P(1, 8) {
+		useFloat(r, &cfg)
+	}
 	p := &Plan{World: "alg", Cfg: cfg}
 	a := makeSubject(cfg, false)
 	b := a.Fresh()
